@@ -51,9 +51,12 @@ type NOp struct {
 	// it carries (from whose leaves the ledger rebuilds the body on every later read) names other transactions:
 	// 1 = the last leaf is an id nobody knows, 2 = the last two leaves are swapped, 3 = the last leaf is the id of the
 	// parent's award transaction. The block must be refused (it is not what its root commits to)
-	TreeLeaf int      `json:"treeleaf,omitempty"`
-	Old      []string `json:"old,omitempty"`   // peer: txids (hex) of already confirmed transactions to re-include
-	TxsAt    *int     `json:"txsat,omitempty"` // peer: assemble the block's transactions against the state after this block (adversarial)
+	TreeLeaf int `json:"treeleaf,omitempty"`
+	// PresetNext (peer): the block arrives with a NextHash already filled in (a field outside id and signature that the
+	// ledger maintains itself); the block is otherwise genuine and valid
+	PresetNext bool     `json:"presetnext,omitempty"`
+	Old        []string `json:"old,omitempty"`   // peer: txids (hex) of already confirmed transactions to re-include
+	TxsAt      *int     `json:"txsat,omitempty"` // peer: assemble the block's transactions against the state after this block (adversarial)
 }
 
 // NodeMachine couples a real node with the reference model.
@@ -663,6 +666,11 @@ func (nm *NodeMachine) Apply(op NOp) error {
 		}
 		if ok, _ := n.Ledger.VerifyBlock(blk, ""); !ok {
 			return fmt.Errorf("VerifyBlock refuses block %s formatted by the node", op.Label)
+		}
+		if op.PresetNext {
+			h := sha256.Sum256(append([]byte("no-such-successor-"), blk.Blockid...))
+			blk.NextHash = h[:]
+			nm.Stat["peer-preset-nexthash"]++
 		}
 		pristine := CloneTxs(txs)
 		stored, err := nm.LM.ConfirmPrepared(op.Label, parent, blk, op.TwoCB)
